@@ -181,15 +181,23 @@ class C06(Prop):
         nq = sum(len(st["q"]) for st in steps)
         out = []
         if nq > 1:
-            # keep one query (and the history up to it)
-            for i, st in enumerate(steps):
-                for j in range(len(st["q"])):
+            qsteps = [i for i, st in enumerate(steps) if st["q"]]
+            if len(qsteps) > 1:
+                # keep the queries of one step (and the history up to it), shortest history first
+                for i in qsteps:
                     c2 = copy.deepcopy(c)
                     for k, s2 in enumerate(c2["steps"]):
-                        s2["q"] = [s2["q"][j]] if k == i else []
+                        if k != i:
+                            s2["q"] = []
                     c2["steps"] = c2["steps"][:i + 1]
-                    out.append(c2)
-            for c2 in out[:60]:
+                    yield c2
+                return
+            # keep one query of the only step that has any
+            i = qsteps[0]
+            for j in range(len(steps[i]["q"])):
+                c2 = copy.deepcopy(c)
+                c2["steps"][i]["q"] = [c2["steps"][i]["q"][j]]
+                c2["steps"] = c2["steps"][:i + 1]
                 yield c2
             return
         if c["via"] == "handler":
